@@ -245,6 +245,10 @@ fn one(rng: &mut Rng) {
         o.optf(mx).f(far);
         if n <= 700 {
             emit("ray.intersections", &i, &o, &v);
+        } else if v.s() != "ok" {
+            // the input goes along with a failing verdict so that the exact-arithmetic review (DESIGN 8.11) can
+            // decide a crossing through a vertex that exists or not depending on the last bit
+            emit_oracle_only("ray.intersections", &i, &o, &v);
         } else {
             emit_oracle_only("ray.intersections", &Tok::new(), &o, &v);
         }
